@@ -1,1 +1,182 @@
-fn main(){ println!("hi"); }
+//! kverif - deterministic simulation with fault injection for tesselode/kira.
+//!
+//!   kverif check <ID> [--tier quick|thorough] [--seed N] [--cases N] [--workers N] [--max-wall SECS]
+//!   kverif replay <file>
+//!   kverif selftest determinism [<ID>...] [--cases N]
+//!   kverif worker ... / kverif run-case <file>      (internal)
+
+mod backend;
+mod checks;
+mod core;
+mod decoder;
+mod gen;
+mod known;
+mod monitor;
+mod rng;
+mod runner;
+mod sched;
+mod spec;
+mod world;
+
+use std::{path::Path, time::Duration};
+
+use crate::core::Tier;
+
+#[global_allocator]
+static ALLOC: monitor::CountingAllocator = monitor::CountingAllocator;
+
+fn arg_value(args: &[String], name: &str) -> Option<String> {
+	args.iter().position(|a| a == name).and_then(|i| args.get(i + 1).cloned())
+}
+
+fn main() {
+	monitor::install_panic_hook();
+	let args: Vec<String> = std::env::args().skip(1).collect();
+	let code = match args.first().map(|s| s.as_str()) {
+		Some("check") => cmd_check(&args[1..]),
+		Some("replay") => {
+			let Some(path) = args.get(1) else {
+				eprintln!("usage: kverif replay <file>");
+				std::process::exit(2);
+			};
+			runner::replay_file(&checks::lookup, Path::new(path))
+		}
+		Some("selftest") => cmd_selftest(&args[1..]),
+		Some("worker") => {
+			let Some(check) = args.get(1).and_then(|id| checks::lookup(id)) else {
+				eprintln!("worker: unknown check");
+				std::process::exit(2);
+			};
+			runner::worker_main(check.as_ref(), &args[2..])
+		}
+		Some("run-case") => {
+			let text = std::fs::read_to_string(&args[1]).unwrap_or_default();
+			let doc: serde_json::Value = match serde_json::from_str(&text) {
+				Ok(v) => v,
+				Err(e) => {
+					eprintln!("run-case: malformed file: {e}");
+					std::process::exit(2);
+				}
+			};
+			let Some(check) = doc["check"].as_str().and_then(checks::lookup) else {
+				eprintln!("run-case: unknown check");
+				std::process::exit(2);
+			};
+			match monitor::catch(|| runner::run_case_main(check.as_ref(), &doc["case"])) {
+				Ok(c) => c,
+				Err(msg) => {
+					eprintln!("harness panic outside monitored code: {msg}");
+					2
+				}
+			}
+		}
+		Some("list") => {
+			for c in checks::all() {
+				println!("{}", c.info().id);
+			}
+			0
+		}
+		_ => {
+			eprintln!("usage: kverif check <ID> [--tier quick|thorough] [--seed N] | replay <file> | selftest determinism | list");
+			2
+		}
+	};
+	std::process::exit(code);
+}
+
+fn env_seed() -> u64 {
+	std::env::var("VERIF_SEED")
+		.ok()
+		.and_then(|s| s.trim().parse::<u64>().ok())
+		.unwrap_or(runner::DEFAULT_SEED)
+}
+
+fn cmd_check(args: &[String]) -> i32 {
+	let Some(id) = args.first() else {
+		eprintln!("usage: kverif check <ID>");
+		return 2;
+	};
+	let Some(check) = checks::lookup(id) else {
+		eprintln!("unknown check {id}");
+		return 2;
+	};
+	let tier_name = arg_value(args, "--tier")
+		.or_else(|| std::env::var("VERIF_TIER").ok())
+		.unwrap_or_else(|| "quick".into());
+	let tier = if tier_name == "thorough" { Tier::Thorough } else { Tier::Quick };
+	let seed = arg_value(args, "--seed").and_then(|s| s.parse().ok()).unwrap_or_else(env_seed);
+	let workers = arg_value(args, "--workers")
+		.and_then(|s| s.parse().ok())
+		.unwrap_or_else(|| std::thread::available_parallelism().map(|n| n.get()).unwrap_or(4).min(16));
+	let max_wall = arg_value(args, "--max-wall").and_then(|s| s.parse::<u64>().ok()).unwrap_or(match tier {
+		Tier::Quick => 120,
+		Tier::Thorough => 1500,
+	});
+	let opts = runner::BatchOptions {
+		tier,
+		seed,
+		workers,
+		max_cases: arg_value(args, "--cases").and_then(|s| s.parse().ok()),
+		max_wall: Duration::from_secs(max_wall),
+		collect_hashes: false,
+		write_evidence: !args.iter().any(|a| a == "--no-evidence"),
+		quiet: false,
+	};
+	runner::run_batch(check.as_ref(), &opts).exit_code
+}
+
+/// Determinism self-test: every case of a sample is executed in two different
+/// processes under two different worker counts; the complete event-log hashes
+/// must agree.
+fn cmd_selftest(args: &[String]) -> i32 {
+	if args.first().map(|s| s.as_str()) != Some("determinism") {
+		eprintln!("usage: kverif selftest determinism [<ID>...] [--cases N]");
+		return 2;
+	}
+	let cases: u64 = arg_value(args, "--cases").and_then(|s| s.parse().ok()).unwrap_or(2000);
+	let ids: Vec<String> = args[1..].iter().filter(|a| a.starts_with('C')).cloned().collect();
+	let seed = env_seed();
+	let mut bad = 0;
+	for check in checks::all() {
+		let id = check.info().id;
+		if !ids.is_empty() && !ids.iter().any(|i| i == id) {
+			continue;
+		}
+		let mut runs = Vec::new();
+		for workers in [16usize, 5] {
+			let opts = runner::BatchOptions {
+				tier: Tier::Quick,
+				seed,
+				workers,
+				max_cases: Some(cases),
+				max_wall: Duration::from_secs(600),
+				collect_hashes: true,
+				write_evidence: false,
+				quiet: true,
+			};
+			let r = runner::run_batch(check.as_ref(), &opts);
+			if r.exit_code == 2 {
+				return 2;
+			}
+			runs.push(r.hashes);
+		}
+		let mut mismatches = 0;
+		for (i, h) in &runs[0] {
+			if runs[1].get(i) != Some(h) {
+				mismatches += 1;
+				if mismatches <= 5 {
+					eprintln!("{id}: case {i} differs between executions: {h} vs {:?}", runs[1].get(i));
+				}
+			}
+		}
+		println!("{id}: {} cases executed twice (16 and 5 worker processes), {mismatches} mismatching event-log hashes", runs[0].len());
+		if mismatches > 0 || runs[0].len() != runs[1].len() {
+			bad += 1;
+		}
+	}
+	if bad > 0 {
+		2
+	} else {
+		0
+	}
+}
